@@ -49,6 +49,7 @@ type c09Pod struct {
 	Prio  string `json:"prio"` // prod | mid | batch | free | none
 	Qos   string `json:"qos"`
 	Phase string `json:"phase"`
+	Term  bool   `json:"term"` // being deleted: deletionTimestamp set (the phase stays what it is)
 	Req   c09RL  `json:"req"`
 }
 
@@ -173,6 +174,11 @@ func c09Exec(in c09In) (out vu.Ev, failure string) {
 		}
 		if p.Prio != "none" {
 			pod.Spec.PriorityClassName = string(c09Prio(p.Prio))
+		}
+		if p.Term {
+			pod.DeletionTimestamp = &metav1.Time{Time: c09Now.Add(-5 * time.Second)}
+			grace := int64(600)
+			pod.DeletionGracePeriodSeconds = &grace
 		}
 		podList.Items = append(podList.Items, pod)
 	}
@@ -309,11 +315,13 @@ func (r *c09Runner) enumerate(thorough bool) {
 	const c, m = int64(100), int64(256)
 	u := func(v int64) c09RL { return c09RL{v * c, v * m} }
 	opt := func(has bool, v int64) c09Opt { return c09Opt{has, v * c, v * m} }
-	pod := func(prio, qos, phase string, req int64) c09Pod { return c09Pod{prio, qos, phase, u(req)} }
+	pod := func(prio, qos, phase string, req int64) c09Pod { return c09Pod{Prio: prio, Qos: qos, Phase: phase, Req: u(req)} }
+	term := func(p c09Pod) c09Pod { p.Term = true; return p } // being deleted, still counts
 	podSets := [][]c09Pod{{}, {pod("prod", "LS", "Running", 20)}, {pod("mid", "LS", "Running", 20)}, {pod("batch", "BE", "Running", 20)},
 		{pod("none", "LS", "Running", 20)}, {pod("none", "BE", "Running", 20)}, {pod("prod", "LS", "Succeeded", 20)},
 		{pod("prod", "LSE", "Pending", 20)}, {pod("prod", "LS", "Running", 30), pod("prod", "LSR", "Running", 25)},
-		{pod("prod", "LS", "Running", 30), pod("mid", "LS", "Running", 25)}}
+		{pod("prod", "LS", "Running", 30), pod("mid", "LS", "Running", 25)},
+		{term(pod("prod", "LS", "Running", 20))}, {pod("prod", "LS", "Running", 30), term(pod("prod", "LSR", "Pending", 25))}}
 	if thorough {
 		podSets = append(podSets, []c09Pod{pod("free", "BE", "Running", 20)}, []c09Pod{pod("prod", "LS", "Failed", 20)},
 			[]c09Pod{pod("prod", "LS", "Running", 0)}, []c09Pod{pod("mid", "BE", "Running", 20)})
@@ -434,6 +442,9 @@ func c09Rand(rng *rand.Rand) c09In {
 		}
 		p.Phase = pick("Running", "Running", "Running", "Running", "Running", "Running", "Pending", "Succeeded", "Failed")
 		p.Req = c09RL{frac(in.Cap.CPU, 90/int64(np)), frac(in.Cap.Mem, 90/int64(np))}
+		if (p.Phase == "Running" || p.Phase == "Pending") && rng.Intn(5) == 0 {
+			p.Term = true
+		}
 		in.Pods = append(in.Pods, p)
 	}
 	pct := func() int64 {
